@@ -8,101 +8,13 @@
 #[path = "bridge_common/mod.rs"]
 mod common;
 use common::*;
-use crux_core::bridge::{Bridge, BridgeError, BridgeWithSerializer, Request as BridgeRequest};
+use crux_core::bridge::{Bridge, BridgeWithSerializer, Request as BridgeRequest};
 use crux_core::Core;
-use bincode::Options;
 use serde::de::DeserializeOwned;
 use serde_json::{json, Value};
 use std::collections::HashMap;
 use std::panic::{catch_unwind, AssertUnwindSafe};
 use vh::rng::Rng;
-
-fn bopts() -> impl bincode::Options + Copy {
-    bincode::DefaultOptions::new().with_fixint_encoding().allow_trailing_bytes()
-}
-
-#[derive(Clone, Copy, PartialEq, Eq, Debug)]
-enum Codec { Bincode, Json }
-
-enum BOut { Ok(Vec<u8>), Err(i64), Panic }
-
-trait Face {
-    fn event(&self, bytes: &[u8]) -> Result<Vec<u8>, BridgeError>;
-    fn response(&self, id: u32, bytes: &[u8]) -> Result<Vec<u8>, BridgeError>;
-    fn view(&self) -> Result<Vec<u8>, BridgeError>;
-    fn snap(&self) -> Vec<(u32, u8)>;
-}
-struct BinFace<A: TwinApp>(Bridge<A>);
-impl<A: TwinApp> Face for BinFace<A> {
-    fn event(&self, b: &[u8]) -> Result<Vec<u8>, BridgeError> { self.0.process_event(b) }
-    fn response(&self, id: u32, b: &[u8]) -> Result<Vec<u8>, BridgeError> { self.0.handle_response(id, b) }
-    fn view(&self) -> Result<Vec<u8>, BridgeError> { self.0.view() }
-    fn snap(&self) -> Vec<(u32, u8)> { self.0.verif_registry() }
-}
-struct JsonFace<A: TwinApp>(BridgeWithSerializer<A>);
-impl<A: TwinApp> Face for JsonFace<A> {
-    fn event(&self, b: &[u8]) -> Result<Vec<u8>, BridgeError> {
-        let mut out = vec![];
-        let mut de = serde_json::Deserializer::from_slice(b);
-        self.0.process_event(&mut de, &mut serde_json::Serializer::new(&mut out))?;
-        Ok(out)
-    }
-    fn response(&self, id: u32, b: &[u8]) -> Result<Vec<u8>, BridgeError> {
-        let mut out = vec![];
-        let mut de = serde_json::Deserializer::from_slice(b);
-        self.0.handle_response(id, &mut de, &mut serde_json::Serializer::new(&mut out))?;
-        Ok(out)
-    }
-    fn view(&self) -> Result<Vec<u8>, BridgeError> {
-        let mut out = vec![];
-        self.0.view(&mut serde_json::Serializer::new(&mut out))?;
-        Ok(out)
-    }
-    fn snap(&self) -> Vec<(u32, u8)> { self.0.verif_registry() }
-}
-
-fn guarded(f: impl FnOnce() -> Result<Vec<u8>, BridgeError>) -> BOut {
-    match catch_unwind(AssertUnwindSafe(f)) {
-        Ok(Ok(b)) => BOut::Ok(b),
-        Ok(Err(e)) => BOut::Err(bridge_err_code(&e)),
-        Err(_) => BOut::Panic,
-    }
-}
-
-fn dec<T: DeserializeOwned>(c: Codec, b: &[u8]) -> Option<T> {
-    match c {
-        Codec::Bincode => bopts().deserialize::<T>(b).ok(),
-        Codec::Json => { let mut de = serde_json::Deserializer::from_slice(b); T::deserialize(&mut de).ok() }
-    }
-}
-fn enc<T: serde::Serialize>(c: Codec, v: &T) -> Vec<u8> {
-    match c { Codec::Bincode => bopts().serialize(v).unwrap(), Codec::Json => serde_json::to_vec(v).unwrap() }
-}
-
-/// body for a response to an operation of variant `var`: valid encoding of `v`, or garbage
-fn body(c: Codec, var: u64, v: Option<u64>, rng: &mut Rng) -> Vec<u8> {
-    match (v, var) {
-        (Some(v), V_GET) | (Some(v), V_SUB) => enc(c, &v),
-        (Some(v), V_FETCH) => enc(c, &v.to_string()),
-        (Some(_), _) => enc(c, &()),
-        (None, V_FETCH) => match c {
-            Codec::Bincode => match rng.below(3) { 0 => vec![0xff; 8], 1 => vec![3, 0, 0, 0, 0, 0, 0, 0, b'1'], _ => vec![2, 0, 0, 0, 0, 0, 0, 0, 0xff, 0xfe] },
-            Codec::Json => match rng.below(3) { 0 => b"12".to_vec(), 1 => b"{".to_vec(), _ => b"\"unterminated".to_vec() },
-        },
-        (None, _) => match c {
-            Codec::Bincode => vec![7u8; rng.below(8) as usize],
-            Codec::Json => match rng.below(3) { 0 => b"\"x\"".to_vec(), 1 => b"".to_vec(), _ => b"-1".to_vec() },
-        },
-    }
-}
-/// what the body decodes to for an operation of variant `var` (real serde, same options as the bridge)
-fn body_value(c: Codec, var: u64, b: &[u8]) -> Option<u64> {
-    match var {
-        V_GET | V_SUB => dec::<u64>(c, b),
-        V_FETCH => dec::<String>(c, b).map(|s| text_val(&s)),
-        _ => Some(0),
-    }
-}
 
 fn gen_act(rng: &mut Rng) -> Act {
     let label = rng.below(3) as u8; // few labels: equal operations are common
